@@ -263,10 +263,17 @@ class ResourceManager:
             else:
                 assert False # :nocov:
 
-        value = resolve(resource,
-            *merge_options(resource, dir, xdr),
-            path=(f"{resource.name}_{resource.number}",),
-            attrs=resource.attrs)
+        # A request that is refused half-way (e.g. because a later subsignal uses a pin that is
+        # already taken) must leave the allocation exactly as it was.
+        saved = self._phys_reqd.copy(), self._pins.copy(), self._io_clocks.copy()
+        try:
+            value = resolve(resource,
+                *merge_options(resource, dir, xdr),
+                path=(f"{resource.name}_{resource.number}",),
+                attrs=resource.attrs)
+        except BaseException:
+            self._phys_reqd, self._pins, self._io_clocks = saved
+            raise
         self._requested[resource.name, resource.number] = value
         return value
 
